@@ -30,7 +30,7 @@ ASSUMPTIONS = [
     "(the library refuses with ValueError; the statement does not cover that combination)",
     "computed values compared with rtol=atol=1e-12, moved values exactly",
 ]
-MANDATORY = ["op:take", "op:loc", "op:sel", "op:ix", "op:isel", "op:reduce", "op:take_axis", "op:sort_axis", "op:reindex_axis", "op:reindex_like",
+MANDATORY = ["stack_ds:dict", "ds-ds:variable-sets-differ", "ds-ds:variable-named-like-a-dimension", "op:take", "op:loc", "op:sel", "op:ix", "op:isel", "op:reduce", "op:take_axis", "op:sort_axis", "op:reindex_axis", "op:reindex_like",
              "op:interp_axis", "op:interp_like", "op:ds-scalar", "op:scalar-ds", "op:ds-ds", "op:neg", "op:stack_ds", "op:concatenate_ds",
              "var-lacks-dim", "var-0d", "reindex:missing", "interp:outside", "ds-ds:labels-differ", "ds-ds:layout-differs", "join:align=True"]
 
@@ -152,6 +152,16 @@ def case_st(draw):
         if layout:
             other = {}      # (see ASSUMPTIONS: differently ordered labels + different layouts give per-variable results no Dataset can hold)
         p = {"sym": draw(st.sampled_from(["+", "-", "*"])), "other_labels": other, "layout": layout}
+        if not layout and draw(st.integers(0, 2)) == 0:
+            # the two datasets hold different sets of variables (documented: the result holds the variables found in both); a variable may
+            # carry the name of a dimension (a coordinate-like variable), in one or in both datasets
+            cands = [i for i, (_, vs) in enumerate(spec["vars"]) if vs["dims"]]
+            if cands and draw(st.booleans()):
+                i = draw(st.sampled_from(cands))
+                spec["vars"][i][0] = draw(st.sampled_from(spec["vars"][i][1]["dims"]))
+            names = [n for n, _ in spec["vars"]]
+            p["drop2"] = draw(st.lists(st.sampled_from(names), max_size=len(names) - 1, unique=True)) if len(names) > 1 else draw(st.sampled_from([[], list(names)]))
+            p["extra2"] = draw(st.sampled_from([None, "first", "last"]))
     elif op in ("stack_ds", "concatenate_ds"):
         n = draw(st.integers(2, 3))
         others = []
@@ -164,7 +174,7 @@ def case_st(draw):
                 elif align and draw(st.booleans()):
                     o[dd] = draw(gen.related_labels(dlabels[dd], core.label_kind(dlabels[dd]), relation=draw(st.sampled_from(["permuted", "overlapping", "subset"]))))[1]
             others.append(o)
-        p = {"others": others, "align": align, "keys": draw(st.sampled_from([None, "str"])), "sort": draw(st.booleans()) if align else False,
+        p = {"others": others, "align": align, "keys": draw(st.sampled_from([None, "str", "dict", "dict-int"])) if op == "stack_ds" else None, "sort": draw(st.booleans()) if align else False,
              "reorder": draw(st.booleans())}        # the later datasets hold the same variables, inserted in another order
     pre = draw(st.sampled_from(["none", "none", "warm", "derive-take", "derive-reindex", "derive-take", "derive-sort"]))
     if op == "ds-ds" and p.get("layout"):
@@ -250,6 +260,16 @@ def enumerate_cases(tier):
                 for sym in ("+", "-", "*"):
                     yield "ds-ds-layout-grid", {"op": "ds-ds", "ds": ds, "dsdims": ["x", "y"], "dim": "x",
                                                 "p": {"sym": sym, "other_labels": {}, "layout": layout}}
+
+    # Dataset op Dataset where the two hold different sets of variables, one of them named like a dimension: every subset of the
+    # variables in the second dataset x an extra variable there x operator
+    vs = [["x", {"dims": ["x"], "labels": [[3, 1, 2]], "vk": "f", "base": 0, "attrs": {}}], ["v1", {"dims": ["x", "y"], "labels": [[3, 1, 2], ["b", "a"]], "vk": "f", "base": 20, "attrs": {}}],
+          ["y", {"dims": ["y"], "labels": [["b", "a"]], "vk": "i", "base": 40, "attrs": {}}]]
+    for mask in range(8):
+        for extra in (None, "first", "last"):
+            for sym in ("+", "-", "*"):
+                yield "ds-ds-variable-sets-grid", {"op": "ds-ds", "ds": {"vars": vs, "attrs": dict(DS_ATTRS)}, "dsdims": ["x", "y"], "dim": "x",
+                                                   "p": {"sym": sym, "other_labels": {}, "layout": {}, "drop2": [vs[i][0] for i in range(3) if mask & (1 << i)], "extra2": extra}}
 
 
 # ----------------------------------------------------------------------------------------------
@@ -452,6 +472,17 @@ def run_case(case):
         ds2 = core.build_dataset(relabel(case["ds"], p["other_labels"], p.get("layout"), dlab))
         if p.get("layout"):
             cl.add("ds-ds:layout-differs")
+        if "drop2" in p:
+            sp2 = relabel(case["ds"], p["other_labels"], p.get("layout"), dlab)
+            sp2["vars"] = [[n, vs] for n, vs in sp2["vars"] if n not in p["drop2"]]
+            extra = ["w9", {"dims": [d], "labels": [list(p["other_labels"].get(d, dlab[d]))], "vk": "f", "base": 500}]
+            if p.get("extra2"):
+                sp2["vars"] = [extra] + sp2["vars"] if p["extra2"] == "first" else sp2["vars"] + [extra]
+            ds2 = core.build_dataset(sp2) if sp2["vars"] else da.Dataset()
+            keys = [k for k in keys if k in ds2.keys()]
+            cl.add("ds-ds:variable-sets-differ")
+            if any(k in ds.dims for k in ds.keys()):
+                cl.add("ds-ds:variable-named-like-a-dimension")
         snap2 = core.snapshot_dataset(ds2)
         expected = [(k, lib(lambda: f(fresh[k], ds2[k]), what="per-variable " + what, sig=sig)) for k in keys]
         res = lib(lambda: f(ds, ds2), what=what, sig=sig)
@@ -479,8 +510,17 @@ def run_case(case):
             kws = dict(kw)
             if ks:
                 kws["keys"] = ks
-            expected = [(k, lib(lambda: da.stack([x[k] for x in dss], axis="stk", **kws), what="per-variable " + what, sig=sig)) for k in keys]
-            res = lib(lambda: da.stack_ds(list(dss), axis="stk", **kws), what=what, sig=sig)
+            if p["keys"] in ("dict", "dict-int"):
+                # the documented {label: Dataset} form, labels inserted in an order that is not the sorted one
+                import collections
+                dk = ["k%d" % i for i in range(len(dss))][::-1] if p["keys"] == "dict" else [7, 3, 5][:len(dss)]
+                expected = [(k, lib(lambda: da.stack(collections.OrderedDict((kk, x[k]) for kk, x in zip(dk, dss)), axis="stk", **kw), what="per-variable " + what, sig=sig)) for k in keys]
+                res = lib(lambda: da.stack_ds(dict(zip(dk, dss)), axis="stk", **kw), what=what, sig=sig)
+                check("stk" in res.dims and core.same_labels(res.axes["stk"].values, dk), "stack-labels", {"what": what, "got": core.brief(res.axes["stk"].values) if "stk" in res.dims else None, "expected": dk}, sig)
+                cl.add("stack_ds:dict")
+            else:
+                expected = [(k, lib(lambda: da.stack([x[k] for x in dss], axis="stk", **kws), what="per-variable " + what, sig=sig)) for k in keys]
+                res = lib(lambda: da.stack_ds(list(dss), axis="stk", **kws), what=what, sig=sig)
         else:
             if lacks:
                 return {"classes": [], "nontrivial": False}   # documented precondition: the axis must be in every variable
